@@ -27,6 +27,8 @@ type ValSpec struct {
 	Status  lockingtypes.ValidatorStatus
 	Locking sdk.Coins
 	Power   uint64
+	// JailedUntil is set for validators that start in jail (status Downgrade)
+	JailedUntil time.Time
 }
 
 // GenesisCfg is the small configuration record from which complete application
@@ -197,7 +199,7 @@ func (cfg *GenesisCfg) AppState(cdc codec.Codec, defaults map[string]json.RawMes
 	for _, v := range cfg.Vals {
 		lk.Validators = append(lk.Validators, lockingtypes.Validator{
 			Pubkey: v.Key.Pub().Key, Power: v.Power, Locking: v.Locking,
-			Reward: math.ZeroInt(), GasReward: math.ZeroInt(), Status: v.Status,
+			Reward: math.ZeroInt(), GasReward: math.ZeroInt(), Status: v.Status, JailedUntil: v.JailedUntil,
 		})
 	}
 	st[lockingtypes.ModuleName] = cdc.MustMarshalJSON(&lk)
